@@ -283,6 +283,33 @@ def edge_rule(P, R):
         bad.append('ascending and descending edges use different half-open conventions: a ray through a vertex where the ring passes straight through is counted 0 or 2 times')
     R.check(not bad, 'C02.c', f, inner, 'edge filter is half-open in y: strictly-between always counted, exactly one end point counted, outside and horizontal never (all 13 orderings)',
             f'edge filter violates the half-open rule: {bad[:3]}', construct='half-open edge rule', counterexamples=bad[:6])
+    # direction: an originally ascending edge adds +1, a descending one -1 (so that a closed ring cancels outside and sums to +-1 inside)
+    for (a_, b_, y_), sgn in (((0, 2, 1), 1), ((2, 0, 1), -1)):
+        env = {ex0: Sym(1, 'ex0', 'X'), ex1: Sym(1, 'ex1', 'X'), px: Sym(0, 'x', 'X'), ey0: Sym(a_, 'ey0', 'Y'), ey1: Sym(b_, 'ey1', 'Y'), py: Sym(y_, 'y', 'Y'), wn: 0}
+        I, ctl = ordeval.run_fragment(body, env, {})
+        R.check(I.env[wn] == sgn, 'C02.c', f, inner, f'an {"ascending" if sgn > 0 else "descending"} edge crossed by the ray changes the winding number by {sgn:+d}',
+                f'an {"ascending" if sgn > 0 else "descending"} edge changes the winding number by {I.env[wn]:+d} instead of {sgn:+d}: rings no longer cancel outside the polygon',
+                construct=f'winding increment {"ascending" if sgn > 0 else "descending"}')
+    # straddling edge (one end left of the point, one right): the crossing is decided by the SIGN of one cross product; with the sign abstracted the edge
+    # must be counted for a positive sign and not for a negative one (zero = point on the edge, outside the guarantee)
+    mixed_bad = []
+    for xs_ in ((0, 2, 1), (2, 0, 1)):
+        for sgn in (-1, 1):
+            env = {ex0: Sym(xs_[0], 'ex0', 'X'), ex1: Sym(xs_[1], 'ex1', 'X'), px: Sym(xs_[2], 'x', 'X'), ey0: Sym(0, 'ey0', 'Y'), ey1: Sym(2, 'ey1', 'Y'), py: Sym(1, 'y', 'Y'), wn: 0}
+            try:
+                I, ctl = ordeval.run_fragment(body, env, {'arith_sign': lambda I_, n_, sgn=sgn: sgn})
+            except (ordeval.NotComparisonOnly, ordeval.AxisMismatch) as e:
+                mixed_bad = None
+                R.abstain('C02.c', f, inner, f'straddling-edge decision is not of the form "sign of one arithmetic quantity": {e}')
+                break
+            counted = I.env[wn] != 0
+            if counted != (sgn > 0):
+                mixed_bad.append({'x(e0,e1,p)': xs_, 'cross_sign': sgn, 'counted': counted})
+        if mixed_bad is None:
+            break
+    if mixed_bad is not None:
+        R.check(not mixed_bad, 'C02.c', f, inner, 'a straddling edge is crossed exactly when the cross product (lower vertex, upper vertex, point) is positive',
+                f'straddling-edge decision is wrong for {mixed_bad[:2]}', construct='straddling edge sign test', counterexamples=mixed_bad[:4])
     # edges entirely to the left of the point are skipped, entirely to the right are counted without arithmetic
     ok = True
     for xs, want in (((1, 1, 0), True), ((0, 0, 1), False)):
